@@ -41,6 +41,16 @@ func pickKeys(rc *RunCtx, total, n int) []int {
 	} else if rc.Ch.Pick(4, 0) != 3 {
 		rc.Local["key_anchor"] = fmt.Sprintf("%d/%d", start, st)
 	}
+	// distinct keys: the stride must not share a factor with the population's size
+	for a, b := total, st; ; a, b = b, a%b {
+		if b == 0 {
+			if a != 1 {
+				st = 1
+			}
+			break
+		}
+	}
+	start %= total
 	out := make([]int, n)
 	for i := range out {
 		out[i] = (start + i*st) % total
@@ -55,6 +65,8 @@ type batchWorld struct {
 	pop  *Population
 	s    *Sched
 	a, b *Instance
+	// nKeys: requests draw their keys from the first nKeys accounts of the population
+	nKeys int
 }
 
 func newBatchWorld(t *testing.T, rc *RunCtx, twin bool) *batchWorld {
@@ -73,13 +85,21 @@ func newBatchWorld(t *testing.T, rc *RunCtx, twin bool) *batchWorld {
 	case 2:
 		perms = map[string][]*checker.Permissions{"client1": {{Path: ".*", Operations: []string{"All", "None"}}}}
 	case 3:
-		perms = map[string][]*checker.Permissions{"client1": {{Path: "Big(Shared)?", Operations: []string{"Sign beacon attestation", "Sign beacon proposal", "Sign", "~Lock wallet", "~Create account"}}}}
+		perms = map[string][]*checker.Permissions{"client1": {{Path: "Big(Shared|Batch)?", Operations: []string{"Sign beacon attestation", "Sign beacon proposal", "Sign", "~Lock wallet", "~Create account"}}}}
 	}
 	// A fifth of the twin runs: the unlocker knows no account passphrases (the operator unlocks accounts by hand; the
 	// large wallet's accounts are unlocked already).  An unlocked account signs whatever the unlocker could or could not do.
 	noPass := twin && rc.Ch.Pick(5, 0) == 4
+	w.nKeys = len(pop.Accts)
 	if noPass {
 		rc.Stats.Inc("runs_with_an_unlocker_without_account_passphrases", 1)
+		// ... which leaves the batched wallet (not opened ahead of time) out of reach: requests stay in front of it
+		for i, a := range pop.Accts {
+			if a.Batched {
+				w.nKeys = i
+				break
+			}
+		}
 	}
 	w.a, err = NewInstance(s, "A", InstCfg{Dir: NewRunDir(t), Pop: pop, Permissions: perms, AdminIPs: []string{"10.0.0.1"}, NoAccountPassphrases: noPass})
 	if err != nil {
@@ -238,7 +258,7 @@ func runBatch(t *testing.T, rc *RunCtx, prop string) {
 			rc.Stats.Inc("clean_restarts", 1)
 		}
 		n := drawBatchSize(rc)
-		keys := pickKeys(rc, len(w.pop.Accts), n)
+		keys := pickKeys(rc, w.nKeys, n)
 		kind := "atts"
 		if prop == "C08" {
 			kind = []string{"atts", "atts", "multi", "att", "prop", "gen", "att-seq", "conc"}[ch.Pick(8, 0)]
@@ -284,7 +304,7 @@ func runBatch(t *testing.T, rc *RunCtx, prop string) {
 				rc.Stats.Inc("probe_refused_batch_before_concurrent_batches", 1)
 			}
 			nreq := 2 + ch.Pick(2, 0)
-			all := pickKeys(rc, len(w.pop.Accts), nreq*4)
+			all := pickKeys(rc, w.nKeys, nreq*4)
 			var ops []*Op
 			var res []*OpResult
 			for q := 0; q < nreq; q++ {
